@@ -1098,3 +1098,27 @@ Qed.
 Lemma unlocking_never_committed sv ht idx has_out j :
   committed sv ht idx has_out (F_script_sig j) = false /\ committed sv ht idx has_out (F_witness j) = false.
 Proof. split; reflexivity. Qed.
+
+(* ---- 11. verdict level, with the signature check abstract ------------------------------------------------------------ *)
+Section Tamper.
+Variable dsha256 : bytes -> bytes.
+Hypothesis dsha256_len : forall x, length (dsha256 x) = 32%nat.
+Variables (pubkey signature : Type) (verify : pubkey -> bytes -> signature -> bool).
+
+(* a signature valid before a change of a committed field is valid afterwards only if the hash function shows an
+   anomaly or the SAME signature verifies under two DIFFERENT digests *)
+Lemma tamper_fails sv ht idx c c' f f' (k : pubkey) (s : signature) fl :
+  wf_ctx c -> wf_ctx c' -> in_range idx c -> in_range idx c' ->
+  fed_of sv ht idx c = Ret f -> fed_of sv ht idx c' = Ret f' ->
+  committed sv ht idx (has_output idx c) fl = true -> get idx fl c <> get idx fl c' ->
+  verify k (digest_of dsha256 f) s = true -> verify k (digest_of dsha256 f') s = true ->
+  hash_anomaly dsha256 f f'
+  \/ (digest_of dsha256 f <> digest_of dsha256 f'
+      /\ verify k (digest_of dsha256 f) s = true /\ verify k (digest_of dsha256 f') s = true).
+Proof.
+  intros W W' L L' H H' Hc Hne V V'.
+  destruct (bytes_dec (digest_of dsha256 f) (digest_of dsha256 f')) as [E|N]; [|right; auto].
+  destruct (digest_commits dsha256 dsha256_len _ _ _ _ _ _ _ W W' L L' H H' E) as [A|A]; [|now left].
+  exfalso. apply Hne. exact (A fl Hc).
+Qed.
+End Tamper.
